@@ -430,7 +430,7 @@ Section ClusterProofs.
 
   Lemma c_inv_init progs : cprogs_ok progs -> c_inv progs (c_init progs).
   Proof.
-    intros Hp. unfold c_init. constructor; simpl.
+    intros Hp. unfold c_init, c_init_var. constructor; simpl.
     - split; [intros w; left; reflexivity|]. simpl. left; split; [reflexivity|intros w; reflexivity].
     - unfold c_log_ok; simpl. repeat split; auto.
     - intros t th H. apply nth_error_map_some in H. destruct H as (p & Hp' & ->).
@@ -821,6 +821,21 @@ Lemma c_late_write_after_cleanup :
   exists lbs s, c_run std_id (c_init late_progs) late_sched = Some (lbs, s) /\
     c_deleted (fst s) = true /\ c_creates (fst s) = 2%nat.
 Proof. eexists. eexists. split; [vm_compute; reflexivity|]. split; reflexivity. Qed.
+
+(** an abandoned earlier upload left its id (7) in the shared variable; [prep_client] resets it, so
+    the new upload starts exactly like a first one -- without the reset the workers of the new
+    upload take the stale id on the fast path: nothing is initiated, the part goes under id 7 *)
+Lemma c_init_after_is_init v0 progs : c_init_after v0 progs = c_init progs.
+Proof. reflexivity. Qed.
+
+Lemma c_stale_variable_without_reset :
+  exists lbs s, c_run std_id (c_init_var (c_prep_client_noreset (Some 7)) [(0%nat, [OWrite 1])])
+                      (repeat 0%nat 6) = Some (lbs, s) /\
+    c_all_done s /\ c_creates (fst s) = 0%nat /\ c_log (fst s) = [KUpload 1 7].
+Proof.
+  eexists. eexists. split; [vm_compute; reflexivity|]. split; [|split; reflexivity].
+  intros th H. vm_compute in H. intuition (subst; reflexivity).
+Qed.
 
 Definition c_example_progs : list (nat * list op) :=
   [(0%nat, [OWrite 1]); (1%nat, [OWrite 2]); (0%nat, [OWrite 3])].
